@@ -1567,3 +1567,202 @@ def mx2(m, run):
             raise AnalysisError('%s: interpreter met an unsupported construct: %s' % (key, ex))
         run.ob('MX2.mesh-text-parses-back', key, why is None, 'every vertex once in surface order; faces refer to the vertices of their own surface; counts declared' if why is None else why,
                'geomdl/exchange.py:%d in exchange.%s' % (m.func('exchange.' + name).node.lineno, name))
+
+
+# ====================================================================================== C16: linear algebra over exact rational functions
+def _symmat(name, n, mcols=None, zeros=()):
+    from .skel import Sym
+    return [[0.0 if (i, j) in zeros else Sym('%s%d%d' % (name, i, j)) for j in range(mcols or n)] for i in range(n)]
+
+
+def _as_sym(x):
+    from .skel import Sym
+    from .poly import Poly
+    if isinstance(x, Sym):
+        return x
+    if isinstance(x, Tok) and x.kind == 'PH0' and isinstance(x.val, (int, float)):
+        return Sym(Poly.const(x.val))
+    if isinstance(x, (int, float)) and not isinstance(x, bool):
+        return Sym(Poly.const(x))
+    return None
+
+
+def _mat_eq(sk, A, B, what):
+    """None when the two matrices of rational functions are identical, else the first differing entry"""
+    if len(A) != len(B):
+        return '%s: %d rows, expected %d' % (what, len(A), len(B))
+    for i, (ra, rb) in enumerate(zip(A, B)):
+        if not isinstance(ra, (list, tuple)) or len(ra) != len(rb):
+            return '%s: row %d is %r' % (what, i, ra)
+        for j, (a, b) in enumerate(zip(ra, rb)):
+            sa_, sb_ = _as_sym(a), _as_sym(b)
+            if sa_ is None or sb_ is None:
+                return '%s: entry [%d][%d] is %r, not an exact value' % (what, i, j, a)
+            if not sa_.same(sb_):
+                return '%s: entry [%d][%d] is %s, expected %s' % (what, i, j, repr(sa_)[:120], repr(sb_)[:120])
+    return None
+
+
+def _matmul(sk, A, B):
+    import operator as o
+    out = []
+    for i in range(len(A)):
+        row = []
+        for j in range(len(B[0])):
+            acc = 0
+            for k in range(len(B)):
+                acc = sk.arith(o.add, acc, sk.arith(o.mul, _as_sym(A[i][k]), _as_sym(B[k][j]), None), None)
+            row.append(acc)
+        out.append(row)
+    return out
+
+
+def la3(m, run):
+    """LA3: the LU kernels interpreted on matrices whose entries are symbolic atoms, arithmetic exact over rational functions: doolittle
+    gives L unit lower triangular and U upper triangular with L U = A for the dense matrix and for every pattern of structural zeros off
+    the diagonal; the substitutions solve L y = b and U x = y; lu_solve and lu_factor return x with A x = b, lu_factor for every row
+    permutation its pivoting may choose"""
+    import itertools as it
+    from .skel import Sym
+    from .poly import Poly
+    site_ = lambda fi: 'geomdl/%s.py:%d in %s' % (fi.mod if fi.mod != '_linalg' else '_linalg', fi.node.lineno, fi.key)
+
+    def attempt(key, rule, fi, fn, okmsg):
+        sk = SK(m, dict(STD_ABSTRACTED))
+        try:
+            why = fn(sk)
+        except Violation as v:
+            why = '%s %s' % (v.msg, v.where())
+        except Unsupported as ex:
+            raise AnalysisError('%s: interpreter met an unsupported construct: %s' % (key, ex))
+        run.ob(rule, key, why is None, okmsg if why is None else why, site_(fi))
+
+    # ---- doolittle
+    fi = m.func('_linalg.doolittle')
+    n = 3
+    offdiag = [(i, j) for i in range(n) for j in range(n) if i != j]
+    pats = [()] + [c for r in (1, 2, 3) for c in it.combinations(offdiag, r)]
+    bad = []
+    for zeros in pats:
+        A = _symmat('a', n, zeros=zeros)
+
+        def fn(sk, A=A):
+            L, U = sk.call(fi, [[list(r) for r in A]], {})
+            for i in range(n):
+                for j in range(n):
+                    l, u = _as_sym(L[i][j]), _as_sym(U[i][j])
+                    if l is None or u is None:
+                        return 'entry [%d][%d] of L / U is %r / %r' % (i, j, L[i][j], U[i][j])
+                    if i == j and not l.same(Sym(Poly.const(1))):
+                        return 'L[%d][%d] is %r, L has a unit diagonal' % (i, j, l)
+                    if j > i and not l.is_zero():
+                        return 'L[%d][%d] is not zero: L is lower triangular' % (i, j)
+                    if j < i and not u.is_zero():
+                        return 'U[%d][%d] is not zero: U is upper triangular' % (i, j)
+            return _mat_eq(sk, _matmul(sk, L, U), A, 'L U')
+        sk = SK(m, dict(STD_ABSTRACTED))
+        try:
+            why = fn(sk)
+        except Violation as v:
+            why = '%s %s' % (v.msg, v.where())
+        except Unsupported as ex:
+            raise AnalysisError('_linalg.doolittle: interpreter met an unsupported construct: %s' % ex)
+        if why:
+            bad.append((zeros, why))
+    run.ob('LA3.lu-kernels-exact', '_linalg.doolittle :: 3 x 3 symbolic matrix, %d patterns of structural zeros' % len(pats), not bad,
+           'L unit lower, U upper, L U = A as an identity of rational functions' if not bad else
+           'with structural zeros at %s: %s   [%d of %d patterns]' % (list(bad[0][0]) or 'no position', bad[0][1], len(bad), len(pats)), site_(fi))
+
+    # ---- substitutions
+    L = [[1.0 if i == j else (Sym('l%d%d' % (i, j)) if j < i else 0.0) for j in range(3)] for i in range(3)]
+    U = [[Sym('u%d%d' % (i, j)) if j >= i else 0.0 for j in range(3)] for i in range(3)]
+    bvec = [Sym('b%d' % i) for i in range(3)]
+    for name, M in (('forward_substitution', L), ('backward_substitution', U)):
+        fs = m.func('linalg.' + name)
+
+        def fn(sk, fs=fs, M=M):
+            x = sk.call(fs, [[list(r) for r in M], list(bvec)], {})
+            if not isinstance(x, list) or len(x) != 3:
+                return 'returns %r' % (x,)
+            return _mat_eq(sk, _matmul(sk, M, [[v] for v in x]), [[v] for v in bvec], 'M x')
+        attempt('linalg.%s :: 3 x 3 symbolic triangular matrix' % name, 'LA3.lu-kernels-exact', fs, fn, 'M x = b as an identity of rational functions')
+
+    # ---- lu_solve
+    A = _symmat('a', 3)
+    B = _symmat('b', 3, 2)
+    fl = m.func('linalg.lu_solve')
+
+    def fn(sk):
+        x = sk.call(fl, [[list(r) for r in A], [list(r) for r in B]], {})
+        return _mat_eq(sk, _matmul(sk, A, x), B, 'A x')
+    attempt('linalg.lu_solve :: 3 x 3 symbolic matrix, two right-hand sides', 'LA3.lu-kernels-exact', fl, fn, 'A x = b as an identity of rational functions')
+
+    # ---- lu_factor: the pivoting helper is replaced by each row permutation it may choose
+    ff = m.func('linalg.lu_factor')
+    badp = []
+    perms = list(it.permutations(range(3)))
+    for perm in perms:
+        P = [[1.0 if perm[i] == j else 0.0 for j in range(3)] for i in range(3)]
+        PA = [list(A[perm[i]]) for i in range(3)]
+        ab = dict(STD_ABSTRACTED)
+        ab[('linalg', 'matrix_pivot')] = Py(lambda sk, node, *a, _P=P, _PA=PA, **k: ([list(r) for r in _PA], [list(r) for r in _P]), 'matrix_pivot')
+        sk = SK(m, ab)
+        try:
+            x = sk.call(ff, [[list(r) for r in A], [list(r) for r in B]], {})
+            why = _mat_eq(sk, _matmul(sk, A, x), B, 'A x')
+        except Violation as v:
+            why = '%s %s' % (v.msg, v.where())
+        except Unsupported as ex:
+            raise AnalysisError('linalg.lu_factor: interpreter met an unsupported construct: %s' % ex)
+        if why:
+            badp.append((perm, why))
+    # ---- matrix_inverse / matrix_determinant: same replacement of the pivoting helper
+    def parity(perm):
+        s = 1
+        for i in range(len(perm)):
+            for j in range(i + 1, len(perm)):
+                if perm[i] > perm[j]:
+                    s = -s
+        return s
+    fi_inv, fi_det = m.func('linalg.matrix_inverse'), m.func('linalg.matrix_determinant')
+    a = lambda i, j: Poly.atom('a%d%d' % (i, j))
+    leib = Poly()
+    for perm in perms:
+        leib = leib + a(0, perm[0]) * a(1, perm[1]) * a(2, perm[2]) * parity(perm)
+    bad_inv, bad_det = [], []
+    inv_perms = perms if run.tier == 'thorough' else [(0, 1, 2), (1, 2, 0), (2, 0, 1)]       # identity and the two 3-cycles (P != P^T)
+    for perm in perms:
+        P = [[1.0 if perm[i] == j else 0.0 for j in range(3)] for i in range(3)]
+        PA = [list(A[perm[i]]) for i in range(3)]
+
+        def hook(sk, node, *args, _P=P, _PA=PA, _s=float(parity(perm)), **k):
+            want_sign = k.get('sign', args[1] if len(args) > 1 else False)
+            base = ([list(r) for r in _PA], [list(r) for r in _P])
+            return base + (_s,) if want_sign else base
+        ab = dict(STD_ABSTRACTED)
+        ab[('linalg', 'matrix_pivot')] = Py(hook, 'matrix_pivot')
+        for fi_, bad_, kind in ((fi_inv, bad_inv, 'inv'), (fi_det, bad_det, 'det')):
+            if kind == 'inv' and perm not in inv_perms:
+                continue
+            sk = SK(m, ab)
+            try:
+                out = sk.call(fi_, [[list(r) for r in A]], {})
+                if kind == 'inv':
+                    why = _mat_eq(sk, _matmul(sk, A, out), [[1.0 if i == j else 0.0 for j in range(3)] for i in range(3)], 'A inverse(A)')
+                else:
+                    d = _as_sym(out)
+                    why = None if d is not None and d.same(Sym(leib)) else 'returns %s, the determinant is %r' % (repr(out)[:160], leib)
+            except Violation as v:
+                why = '%s %s' % (v.msg, v.where())
+            except Unsupported as ex:
+                raise AnalysisError('%s: interpreter met an unsupported construct: %s' % (fi_.key, ex))
+            if why:
+                bad_.append((perm, why))
+    for fi_, bad_, what in ((fi_inv, bad_inv, 'A inverse(A) = I'), (fi_det, bad_det, 'the Leibniz determinant')):
+        run.ob('LA3.lu-kernels-exact', '%s :: 3 x 3 symbolic matrix, every row permutation chosen by the pivoting' % fi_.key, not bad_,
+               '%s for all %d permutations' % (what, len(inv_perms) if fi_ is fi_inv else len(perms)) if not bad_ else
+               'when the pivoting orders the rows as %s: %s   [%d of %d permutations]' % (list(bad_[0][0]), bad_[0][1], len(bad_), len(perms)), site_(fi_))
+    run.ob('LA3.lu-kernels-exact', 'linalg.lu_factor :: 3 x 3 symbolic matrix, every row permutation chosen by the pivoting', not badp,
+           'A x = b for all %d permutations' % len(perms) if not badp else
+           'when the pivoting orders the rows as %s (P A = rows %s of A): %s   [%d of %d permutations]; the right-hand side must be permuted with P, not with its transpose'
+           % (list(badp[0][0]), list(badp[0][0]), badp[0][1], len(badp), len(perms)), site_(ff))
